@@ -386,10 +386,60 @@ def gen_cf(rng):
     return text, T, F
 
 
+def gen_cf_diamond(rng):
+    """multi-block func bodies for cse: a cf.cond_br diamond whose two arms (sibling blocks, neither dominates the
+    other) compute the SAME pure op on the same operands and feed a join block through block arguments; plain, or
+    inside a cf loop with loop-carried block arguments where the arm taken alternates with the iteration"""
+    T = rng.choice(["i8", "i16", "i32", "i64", "index"])
+    F = rng.choice(["f32", "f64"])
+    ops = ["addi", "subi", "muli", "xori", "andi", "ori", "minsi", "maxui"]
+    op1 = rng.choice(ops)
+    op2 = op1 if rng.random() < 0.8 else rng.choice(ops)
+    k = rng.choice(int_lits(T))
+    extra = rng.random() < 0.5
+    if rng.random() < 0.5:
+        x, y = rng.choice([("%a", "%b"), ("%b", "%a"), ("%a", "%a")])
+        body = [f"    %k = arith.constant {k} : {T}",
+                "    cf.cond_br %c, ^t, ^e",
+                "  ^t:",
+                f"    %x1 = arith.{op1} {x}, {y} : {T}"]
+        body += [f"    %y1 = arith.xori %x1, %k : {T}", f"    cf.br ^m(%y1 : {T})"] if extra else [f"    cf.br ^m(%x1 : {T})"]
+        body += ["  ^e:", f"    %x2 = arith.{op2} {x}, {y} : {T}"]
+        body += [f"    %y2 = arith.addi %x2, %k : {T}", f"    cf.br ^m(%y2 : {T})"] if extra else [f"    cf.br ^m(%x2 : {T})"]
+        body += [f"  ^m(%r: {T}):", f"    %s = arith.{rng.choice(ops)} %r, %a : {T}", f"    func.return %s : {T}"]
+    else:
+        n = rng.choice([2, 3, 4])
+        body = ["    %i0 = arith.constant 0 : index", f"    %n = arith.constant {n} : index",
+                "    %one = arith.constant 1 : index", f"    %k = arith.constant {k} : {T}",
+                f"    cf.br ^h(%i0, %a : index, {T})",
+                f"  ^h(%i: index, %acc: {T}):",
+                "    %lt = arith.cmpi slt, %i, %n : index",
+                f"    cf.cond_br %lt, ^body, ^x(%acc : {T})",
+                "  ^body:",
+                "    %bit = arith.andi %i, %one : index",
+                "    %odd = arith.cmpi eq, %bit, %one : index",
+                "    %sel = arith.xori %odd, %c : i1",
+                "    cf.cond_br %sel, ^t, ^e",
+                "  ^t:",
+                f"    %x1 = arith.{op1} %acc, %b : {T}",
+                f"    cf.br ^j(%x1 : {T})",
+                "  ^e:",
+                f"    %x2 = arith.{op2} %acc, %b : {T}"]
+        body += [f"    %y2 = arith.addi %x2, %k : {T}", f"    cf.br ^j(%y2 : {T})"] if extra else [f"    cf.br ^j(%x2 : {T})"]
+        body += [f"  ^j(%v: {T}):", "    %i1n = arith.addi %i, %one : index", f"    cf.br ^h(%i1n, %v : index, {T})",
+                 f"  ^x(%r: {T}):", f"    func.return %r : {T}"]
+    text = ("builtin.module {\n"
+            f"  func.func private @ext({T}) -> {T}\n"
+            f"  func.func @main(%a: {T}, %b: {T}, %f: {F}, %c: i1) -> {T} {{\n"
+            + "\n".join(body) + "\n  }\n}\n")
+    return text, T, F
+
+
 def gen_case(rng):
     from harness.props.c14 import parse_module
     for _ in range(20):
-        text, T, F = (gen_cf if rng.random() < 0.3 else gen_scf)(rng)
+        r = rng.random()
+        text, T, F = (gen_cf_diamond if r < 0.15 else gen_cf if r < 0.4 else gen_scf)(rng)
         try:
             parse_module(text)
         except Exception:
@@ -495,6 +545,10 @@ def run_pass(case, pass_name):
     for inp, b, a in zip(case["inputs"], before, after):
         if b[0] in ("excluded",):
             continue
+        if b[0] == "ok" and a[0] == "unsupported" and "undefined value" in a[1]:
+            # the transformed program reads a value that is not defined on the executed path (a use that its
+            # definition does not dominate): the pass broke the program even though the verifier accepts it
+            return [-2, 0, "", f"inputs {inp}: after the pass the program reads an undefined value; before {b[:3]}"[:300]]
         if b[0] == "unsupported" or a[0] == "unsupported":
             return [-3, 0, "", (b if b[0] == "unsupported" else a)[1][:80]]
         judged += 1
